@@ -103,9 +103,25 @@ func addressSensitive(sc *formula.SourceCode, data val.V) bool {
 	if a1 != a2 {
 		return false
 	}
-	other := evalTree(sc, data) // a second build of equal data, alive at the same time as the first
+	// further builds of equal data, alive at the same time as the first
+	for i := 0; i < addressProbeBuilds; i++ {
+		if evalTree(sc, data) != a1 {
+			runtime.KeepAlive(m)
+			return true
+		}
+	}
 	runtime.KeepAlive(m)
-	return a1 != other
+	return false
+}
+
+// addressProbeBuilds: how many other builds are compared (1 when screening every case; raised to 12 before a difference
+// between builds is reported, since "does the digit 5 occur in the address" differs only between some builds).
+var addressProbeBuilds = 1
+
+func addressSensitiveForSure(sc *formula.SourceCode, data val.V) bool {
+	addressProbeBuilds = 12
+	defer func() { addressProbeBuilds = 1 }()
+	return addressSensitive(sc, data)
 }
 
 // evalTreeKeep also hands back the value itself (to look at it again later).
@@ -192,6 +208,10 @@ var c08Pure = core.Mon(c08, "repeat-and-interleave", func(w *core.W, c *PureCase
 	// a formula without now / toDay does not read the clock: the same outcome when the wall clock says 2038 or 1930
 	// (virtual clock of the harness build, see tools/mkoverlay.py)
 	if again := evalTree(sc, c.Data); !clock && again != first {
+		if addressSensitiveForSure(sc, c.Data) {
+			w.Skip("address-dependent-output")
+			return
+		}
 		w.Violation("repeat-and-interleave", "C08/evaluation-not-repeatable", c, clipS(first, 300), clipS(again, 300),
 			fmt.Sprintf("the second evaluation of %q (fresh runner, equal data, nothing in between) differs from the first", clipS(c.Src, 120)))
 		return
@@ -202,6 +222,10 @@ var c08Pure = core.Mon(c08, "repeat-and-interleave", func(w *core.W, c *PureCase
 			obs.WithClock(at, func() { o = evalTree(sc, c.Data) })
 			w.Count("evaluations_under_another_clock")
 			if o != first {
+				if addressSensitiveForSure(sc, c.Data) {
+					w.Skip("address-dependent-output")
+					return
+				}
 				w.Violation("repeat-and-interleave", "C08/depends-on-the-clock", c, clipS(first, 300), clipS(o, 300),
 					fmt.Sprintf("%q has no clock builtin, yet it evaluates differently when the wall clock reads %s", clipS(c.Src, 120), at.UTC().Format(time.RFC3339)))
 				return
@@ -211,6 +235,10 @@ var c08Pure = core.Mon(c08, "repeat-and-interleave", func(w *core.W, c *PureCase
 		w.Skip("no-clock-overlay")
 	}
 	if o2, f2 := evalTree(sc2, c.Data), fieldsOf(sc2); !clock && (o2 != first || f2 != f0) {
+		if f2 == f0 && addressSensitiveForSure(sc, c.Data) {
+			w.Skip("address-dependent-output")
+			return
+		}
 		w.Violation("repeat-and-interleave", "C08/tree-depends-on-callers-buffer", c, clipS(o2+" fields "+f2, 300), clipS(first+" fields "+f0, 300),
 			fmt.Sprintf("the tree parsed from a buffer the host re-used afterwards evaluates/analyses differently from the tree of the same text %q parsed from a private buffer", clipS(c.Src, 120)))
 		return
@@ -236,6 +264,10 @@ var c08Pure = core.Mon(c08, "repeat-and-interleave", func(w *core.W, c *PureCase
 			w.Count("value_results_repeated")
 		}
 		if !clock && again != first {
+			if addressSensitiveForSure(sc, c.Data) {
+				w.Skip("address-dependent-output")
+				return
+			}
 			w.Violation("repeat-and-interleave", "C08/evaluation-not-repeatable", c, clipS(first, 300), clipS(again, 300),
 				fmt.Sprintf("evaluation %d of %q differs from the first one (fresh runner, equal data)", rep+2, clipS(c.Src, 120)))
 			return
@@ -281,6 +313,10 @@ var c08Pure = core.Mon(c08, "repeat-and-interleave", func(w *core.W, c *PureCase
 		w.Count("shared_data_runs")
 		for round := 0; round < 2; round++ {
 			if got := onShared(sc); got != first {
+				if addressSensitiveForSure(sc, c.Data) {
+					w.Skip("address-dependent-output")
+					return
+				}
 				w.Violation("repeat-and-interleave", "C08/evaluation-changed-callers-data", c, clipS(first, 300), clipS(got, 300),
 					fmt.Sprintf("%q evaluated against a data object that earlier evaluations (of itself and of %d other formulas) had used gives a different outcome than against freshly built equal data", clipS(c.Src, 120), len(c.Foreign)))
 				return
